@@ -13,13 +13,17 @@ PROP = {'lean_props': ['Comrak.Props.C03'],
                        'table_canon',
                        'items_canon',
                        'footnotes_canon',
-                       'toTreeP_erase_canon'],
+                       'toTreeP_erase_canon',
+                       'positions_canon_partial',
+                       'write_lines_clean_canon',
+                       'positions_canon'],
  'strength': 'partial (_canon): proved for every document of the canonical class (unbounded depth and size; every construct the property '
              'names: paragraphs, ATX/setext headings, thematic breaks, fenced and indented code, block quotes, tight/loose bullet and ordered lists, '
              'task items, GFM tables with alignments, HTML blocks (start condition 6, safe mode), footnote definitions and references with the '
              'footnote section and its back-links, emphasis, strong, strikethrough, code spans, inline/reference links, images, autolinks, breaks, '
              'entities, escapes); the class is not the whole language, and the parser step (parse_document (write d) = toTree d) is the '
-             'correspondence, checked on every run, not a theorem',
+             'correspondence, checked on every run, not a theorem; positions_canon: for every canonical document the source positions of '
+             'Doc.toTreeP (the ones K compares with the real parser) satisfy all C11/C12 oracle clauses on write d',
  'trusted_base': ["recursive renderT/renderF stand for comrak's explicit work-stack traversal (exercised by the correspondence on deep and wide "
                   'trees, not proved)',
                   'the model of html.rs (Comrak/Html.lean) is tied to the real formatter by the shared renderer correspondence of C10/C02 and, '
@@ -28,7 +32,7 @@ PROP = {'lean_props': ['Comrak.Props.C03'],
                   '<pre><code class="language-x">, start attribute, alt text, percent-encoding convention of the examples); the spec text is '
                   'not vendored in this tree, so the reading was from memory of the published specification',
                   'Doc.ok (Comrak/Canon/Ok.lean) is an executable side condition; that it really excludes every ambiguity is what K tests '
-                  '(write_lines_wf is not proved)'],
+                  '(write_lines_clean_canon proves the part the position theorem needs: no written line contains a line end or carriage return; the full write_lines_wf is not proved)'],
  'assumptions': ['default options plus the extensions strikethrough, table, tasklist, footnotes (needed by the constructs); footnote definitions are '
                  'one paragraph each, footnote names letters and digits; HTML blocks of start condition 6 only']}
 
@@ -46,7 +50,7 @@ TEXT = {'text': 'Proof + correspondence. Lean defines an inductive type Doc of c
          'source position equals the line/column span Doc.toTreeP d computes from the writer\'s layout (toTreeP_erase_canon: toTreeP d is toTree d '
          'with positions filled in; unclaimed: indented code blocks, inlines of cells containing \\| - '
          'comrak\'s positions for these are off, C11/C12 findings); the driver evaluates the C11/C12 oracles (range, nesting, order, slice) on '
-         'the claimed positions of every generated document (Doc.posOk, reported, not proved for all d); S: the real markdown_to_html(write d) equals refHtml d. Known findings (each excluded from Doc.ok by a named clause, re-observed by directed probes and replays on every run): a blank '
+         'the claimed positions of every generated document (Doc.posOk) and positions_canon proves Doc.ok d -> Doc.posOk d for EVERY canonical document: every claimed position lies in write d, nests in its nearest reliable ancestor, follows its previous sibling, and denotes a slice with the bytes its kind requires (all clauses of sliceFail / sliceEndFail of Comrak/Sourcepos.lean), by structural induction over blocks / items / inlines / table rows and cells / footnote definitions on top of a line-table lemma for write d = joinLines (lines free of line ends: write_lines_clean_canon); S: the real markdown_to_html(write d) equals refHtml d. Known findings (each excluded from Doc.ok by a named clause, re-observed by directed probes and replays on every run): a blank '
          'line that follows a thematic break inside a list item is not registered when tightness is decided, so such a list is rendered tight '
          'where the specification says loose; a table without body rows inside a list item makes the list loose although no blank line is '
          'present (the consumed delimiter row is taken for a blank line); with the tasklist extension an item whose text merely reads "[x] a" '
